@@ -204,6 +204,8 @@ type c19Args struct {
 	Spec  string
 	Verb  string
 	Prec  int
+	// DefMode is the DefaultRoundingMode during the evaluation (index into ref.Modes; 0 = nearest-even)
+	DefMode uint8 `json:",omitempty"`
 }
 
 func sameValueOrBothNaN(a, b ref.Num) bool { return ref.SameVal(a, b) }
@@ -223,6 +225,11 @@ var c19 = Register("C19", "C19.cohort", func(a c19Args) *Violation {
 		return nil
 	}
 	sc := c19Scalars{I: a.I, Mode: d128.RoundingMode(a.Mode % 6), Spec: a.Spec, Verb: a.Verb[0], Prec: a.Prec}
+	// the mode-less forms (Add, Quo, Pow, the elementary functions, conversions) read DefaultRoundingMode:
+	// the relation must hold under each of its values
+	oldMode := d128.DefaultRoundingMode
+	d128.DefaultRoundingMode = d128.RoundingMode(a.DefMode % 6)
+	defer func() { d128.DefaultRoundingMode = oldMode }()
 	// invalid-operation payloads are compared only when no operand is itself a NaN
 	pl := nx.Class != ref.NaN && (op.arity == 1 || ny.Class != ref.NaN)
 	base := op.run(a.X.Dec(), a.Y.Dec(), sc, pl)
@@ -363,6 +370,9 @@ func TestC19_Cohort(t *testing.T) {
 	runRapid(t, 40000, 2000000, func(t *rapid.T) {
 		op := c19Ops[ir(t, 0, len(c19Ops)-1, "op")]
 		a := c19Args{Op: op.name, Mode: uint8(ir(t, 0, 5, "mode")), Spec: genSpec(t), Verb: string("eEfgG"[ir(t, 0, 4, "verb")]), Prec: ir(t, -1, 40, "prec")}
+		if ir(t, 0, 1, "otherDefault") == 0 {
+			a.DefMode = uint8(ir(t, 1, 5, "defMode"))
+		}
 		a.X = genCohortRich(t)
 		a.X2 = genCohortMember(t, a.X)
 		if op.arity == 2 {
